@@ -242,6 +242,59 @@ def mul (thr : Nat) (P Q : List K) : List K :=
 /-- `mulin(R,P)`: `mul(tmp,R,P); assign(R,tmp)` -/
 def mulin (thr : Nat) (R P : List K) : List K := assign (mul thr R P)
 
+/-! ### givpoly1kara.inl: dedicated squaring (`stdsqr`, `sqrrec`, dispatch on `SQR_THRESHOLD`) -/
+
+/-- inner loop of `stdsqr`: `axpyin(*rit, *backpit, *forpit)` with `backpit` walking down to `Pbeg` and `forpit` up to `Pend`
+    (`back` is the part of `P` before `pit`, nearest coefficient first) -/
+def dot : List K → List K → K → K
+  | a :: A, b :: B, acc => dot A B (acc + a * b)
+  | _, _, acc => acc
+
+/-- body of the `for(++rit,++pit; rit != Rend; ++pit, ++rit)` loop of `stdsqr`: two coefficients per position of `pit`:
+    the odd one `2·Σ P[t-1-s]P[t+s]` and the even one `2·Σ P[t-1-s]P[t+1+s] + P[t]²` -/
+def stdsqrFrom (two : K) : List K → List K → List K
+  | _, [] => []
+  | back, p :: fwd =>
+    (dot back (p :: fwd) 0 * two) :: (dot back fwd 0 * two + p * p) :: stdsqrFrom two (p :: back) fwd
+
+/-- `stdsqr(R, Rbeg, Rend, P, Pbeg, Pend, two)`; PRECONDITION of the source: the R range has `2·|P|-1` places and `P` is not
+    empty (an empty `P` range dereferences `Pbeg`) -/
+def stdsqr (two : K) : List K → List K
+  | [] => []
+  | p0 :: rest => (p0 * p0) :: stdsqrFrom two [p0] rest
+
+/-- `*ri += *mi` from offset `off` (update of `R` with the doubled cross product) -/
+def zipAdd : List K → List K → List K
+  | r :: R, m :: M => (r + m) :: zipAdd R M
+  | R, _ => R
+
+def addRow (M : List K) : Nat → List K → List K
+  | 0, R => zipAdd R M
+  | _ + 1, [] => []
+  | off + 1, r :: R => r :: addRow M off R
+
+/-- one level of `sqrrec`: `Pl²` in `R[0, 2·half-1)`, a zero, `Ph²` in `R[2·half, 2|P|-1)`, then `+= 2·Pl·Ph` at offset `half`;
+    `sq` is the generic range square used for the two recursive calls, `mul` the generic range product -/
+def sqrStep (sq : List K → List K) (mul : Nat → List K → List K → List K) (two : K) (P : List K) : List K :=
+  let half := P.length / 2
+  let Pl := P.take half
+  let Ph := P.drop half
+  let lo := pad (2 * half - 1) (sq Pl)
+  let hi := pad (2 * P.length - 1 - 2 * half) (sq Ph)
+  let M := mulVal (setdegree (pad P.length (mul P.length Pl Ph))) two      -- Rep M(P.size()); mul; setdegree; mulin(M,two)
+  addRow M half (lo ++ 0 :: hi)
+
+/-- generic `sqr` on ranges: recursive when the P range is longer than `thr` (= `SQR_THRESHOLD`; the product inside uses
+    `KARA_THRESHOLD`, which has the same value in the source and in both harness builds) -/
+def sqrR (thr : Nat) (two : K) : Nat → List K → List K
+  | 0, P => stdsqr two P
+  | fuel + 1, P =>
+    if P.length > thr then sqrStep (sqrR thr two fuel) (mulR thr P.length) two P else stdsqr two P
+
+/-- `sqr(R,P)`: no `setdegree` at the end (the result carries `2·size-1` coefficients) -/
+def sqr (thr : Nat) (P : List K) : List K :=
+  if P.isEmpty then [] else sqrR thr (1 + 1) P.length P
+
 /-! ### givpoly1axpy.inl: fused forms (compositions of the above, as in the source) -/
 
 def axpy (thr : Nat) (A X Y : List K) : List K := addin (mul thr A X) Y
@@ -296,5 +349,40 @@ def powerCompose (P : List K) (b : Nat) : List K := setdegree (spread b (setdegr
 
 /-- `modpowx(Am, A, l)`: `assign`, `resize(l)`, `setdegree` -/
 def modpowx (A : List K) (l : Nat) : List K := setdegree (pad l (assign A))
+
+/-! ### givpoly1gcd.inl: extended gcd `gcd(F,S0,T0,A,B)` -/
+
+/-- `assign(P, Degree(0), c)` / `assign(P, c)`: the constant polynomial `c` (`[]` when `c` is zero) -/
+def assignC (c : K) : List K := if c = 0 then [] else [c]
+
+/-- the `while (!isZero(G))` loop.  `divf` is the quotient `div(Q,F,G)` (Newton division, not modelled: a parameter);
+    everything else is as in the source: `divmod = div; maxpy`, `r1 = leadcoef(R1)` (one when zero), `F = G`,
+    `G = R1/r1`, and the two cofactor updates `S1' = (S0 - Q·S1)/r1`, `T1' = (T0 - Q·T1)/r1`.
+    `none` = the loop did not finish within `fuel` rounds. -/
+def gcdextLoop (thr : Nat) (divf : List K → List K → List K) :
+    Nat → List K → List K → List K → List K → List K → List K → Option (List K × List K × List K)
+  | 0, _, _, _, _, _, _ => none
+  | fuel + 1, F, G, S0, S1, T0, T1 =>
+    if isZero G then some (F, S0, T0) else
+      let Q := divf F G
+      let R1 := maxpy thr Q G F
+      let r1 := if leadcoef R1 = 0 then 1 else leadcoef R1
+      gcdextLoop thr divf fuel (assign G) (divVal R1 r1)
+        (assign S1) (divVal (sub S0 (mul thr Q S1)) r1)
+        (assign T1) (divVal (sub T0 (mul thr Q T1)) r1)
+
+/-- `gcd(F,S0,T0,A,B)`: returns `(F, S0, T0)` -/
+def gcdext (thr : Nat) (divf : List K → List K → List K) (fuel : Nat) (A B : List K) :
+    Option (List K × List K × List K) :=
+  if degree A < 0 ∨ degree B = 0 then
+    let tt := (leadcoef B)⁻¹
+    some (mulVal (assign B) tt, [], assignC tt)
+  else if degree B < 0 ∨ degree A = 0 then
+    let tt := (leadcoef A)⁻¹
+    some (mulVal (assign A) tt, assignC tt, [])
+  else
+    let r0 := leadcoef A
+    let r1 := leadcoef B
+    gcdextLoop thr divf fuel (divVal (assign A) r0) (divVal (assign B) r1) (assignC r0⁻¹) [] [] (assignC r1⁻¹)
 
 end Givaro.Model.Poly
